@@ -294,6 +294,9 @@ func runCycle(h History, s *Sorter, ci int, outp *Outcome, fail func(string, err
 			if got := s.M.Pos(); got != int64(pulled) {
 				return out, errf("pos", "cycle %d: Pos() = %d after %d pulls", ci, got, pulled), false
 			}
+			if got := s.M.Len(); got != int64(len(c.Keys)) {
+				return out, errf("len", "cycle %d: Len() = %d after %d pulls, %d values were pushed", ci, got, pulled, len(c.Keys)), false
+			}
 			it, err := s.Pull()
 			if err == io.EOF {
 				drained = true
